@@ -1,4 +1,5 @@
-import GoLevel.Proofs.IterStack
+import GoLevel.Proofs.IterLSM
+import GoLevel.Props.C01
 /-!
 # Property C02 — iterators present exactly the live pairs of their view, as a cursor over the sorted list
 
@@ -14,6 +15,12 @@ Models (`GoLevel/Model/Iter.lean`): `DBIter` (`db_iter.go`), `MergedIter` (`iter
 memdb's and the table reader's iterators).  Specification: `GoLevel/Spec/Cursor.lean` (`Cursor.run`), the
 live pairs `visible c es seq` (per user key the newest entry with `seq ≤ seq`, if it is a value), related to
 `view` by `visible_iff_view`.
+
+The range-restricted full stack (`stack_range_refines_cursor`) covers the real layout: array-like sources and
+sorted levels whose indexed iterator is built by `levelIter` (`tFiles.newIndexIterator`, proved equal to
+per-table range filtering in `level_iter_is_range_filter`).  `db_iterator_presents_view` ties the stack to the
+LSM model of C01: over `dbGet`'s sources the iterator is the cursor over the sorted list of `(k, v)` with
+`view … k seq = some v`, i.e. of what `Get` returns.
 
 Every theorem quantifies over **every finite sequence of the five calls** (`cs : List (Call _)`), every lawful
 comparer, every sorted raw content, every snapshot sequence number.  `fuel` is the bound of the scanning
@@ -211,29 +218,59 @@ theorem stack_refines_cursor {c : UCmp} (hl : LawfulUCmp c) (specs : List NodeSp
     (stack_children_sim hl specs hok)
   exact run_rel hsim hl hU.sortedU hk cs ⟨rfl, hfuel, rfl, stack_rel_new c specs U⟩
 
-/-- the same with a key range on array-like children (memdb, table iterators) -/
-theorem stack_range_refines_cursor {c : UCmp} (hl : LawfulUCmp c) (Ls : List (List Entry)) (U : List Entry)
-    (hU : MergeOK c Ls U) (hk : ∀ e ∈ U, e.kind ≤ Gen.keyTypeVal) (hq : ∀ e ∈ U, e.seq ≤ Gen.keyMaxSeq)
+/-- **`tFiles.newIndexIterator` is per-table range filtering.**  For a well-formed sorted level (non-empty
+tables whose concatenation is strictly sorted: tables ordered and disjoint, `imin`/`imax` the first/last key)
+and ANY internal range — including an inverted one, where the limit is clamped to the start — the children
+of the level's indexed iterator (`tf[searchMax(Start) : searchMin(Limit)]`, only the first and last table
+sliced) hold exactly the level's entries inside `[start, limit)`, and they satisfy the index contract. -/
+theorem level_iter_is_range_filter {c : UCmp} (hl : LawfulUCmp c) (tables : List (List Entry))
+    (hok : LevelOK c tables) (start limit : Option IKey) :
+    (levelIter c tables start limit).children.flatMap (·.es) = sliceOf c tables.flatten start limit
+    ∧ IdxOK c (levelIter c tables start limit).children :=
+  ⟨levelIter_flat hl hok start limit, levelIter_idxOK hl hok start limit⟩
+
+/-- three tables of a sorted level -/
+def exLevel : List (List Entry) :=
+  [[⟨mkIKey [1] 2 1, [12]⟩], [⟨mkIKey [2] 3 1, [23]⟩, ⟨mkIKey [3] 4 1, [34]⟩], [⟨mkIKey [5] 1 1, [51]⟩]]
+
+theorem exLevel_ok : LevelOK bytewise exLevel := ⟨by decide, by decide⟩
+
+example : ((levelIter bytewise exLevel (some (probe [3] Gen.keyMaxSeq)) none).children.map (·.es.length)) = [1, 1]
+    ∧ ((levelIter bytewise exLevel (some (probe [5] Gen.keyMaxSeq)) (some (probe [2] Gen.keyMaxSeq))).children = [])
+    := by decide
+
+/-- **The full stack with a key range, for the real layout.**  Sources before restriction: array-like ones
+(aux memdb, write buffer, frozen buffer, level-0 / aux tables: `Source.arr`) and sorted levels
+(`Source.level`, one indexed iterator each, built by `levelIter`).  `DB.newIterator` hands every child the
+internal range `[probe(Start, keyMaxSeq), probe(Limit, keyMaxSeq))`; over that raw iterator `DBIter` is the
+cursor over the visible pairs of the sorted union with `Start ≤ key < Limit`. -/
+theorem stack_range_refines_cursor {c : UCmp} (hl : LawfulUCmp c) (srcs : List Source)
+    (hok : ∀ s ∈ srcs, s.OK c) (U : List Entry) (hU : MergeOK c (srcs.map (·.list)) U)
+    (hk : ∀ e ∈ U, e.kind ≤ Gen.keyTypeVal) (hq : ∀ e ∈ U, e.seq ≤ Gen.keyMaxSeq)
     (seq : Nat) (start limit : Option Bytes) (fuel : Nat) (hfuel : U.length < fuel) (cs : List (Call Bytes)) :
     DBIter.run (MergedIter.ops (Node.ops c) c) c
-        (DBIter.new (MergedIter.new (Ls.map fun L => Node.arr
-          (ArrIter.new c L (start.map (probe · Gen.keyMaxSeq)) (limit.map (probe · Gen.keyMaxSeq))))) seq fuel) cs
+        (DBIter.new (MergedIter.new (srcs.map
+          (·.node c (start.map (probe · Gen.keyMaxSeq)) (limit.map (probe · Gen.keyMaxSeq))))) seq fuel) cs
       = Cursor.run ((visible c U seq).filter (fun p => inRange c start limit p.1)) (geUser c) .soi cs := by
   let st := start.map (probe · Gen.keyMaxSeq)
   let lm := limit.map (probe · Gen.keyMaxSeq)
-  let specs : List NodeSpec := Ls.map fun L => NodeSpec.arr (sliceOf c L st lm)
-  have hfresh : specs.map (·.fresh) = Ls.map fun L => Node.arr (ArrIter.new c L st lm) := by
-    simp [specs, NodeSpec.fresh, ArrIter.new]
-  have hlist : specs.map (·.list) = Ls.map (fun L => sliceOf c L st lm) := by
-    simp [specs, NodeSpec.list]
+  let specs : List NodeSpec := srcs.map (·.spec c st lm)
+  have hfresh : specs.map (·.fresh) = srcs.map (·.node c st lm) := by
+    simp only [specs, List.map_map]
+    apply List.map_congr_left
+    intro s _; exact Source.spec_fresh c st lm s
+  have hlist : specs.map (·.list) = (srcs.map (·.list)).map (·.filter (slicePred c st lm)) := by
+    simp only [specs, List.map_map]
+    apply List.map_congr_left
+    intro s hs; exact Source.spec_list hl st lm s (hok s hs)
   have hU' : MergeOK c (specs.map (·.list)) (sliceOf c U st lm) := by
     rw [hlist]; exact MergeOK.filter hU _
-  have hok : ∀ sp ∈ specs, sp.OK c := by
+  have hok' : ∀ sp ∈ specs, sp.OK c := by
     intro sp hsp
-    obtain ⟨L, _, rfl⟩ := List.mem_map.1 hsp
-    trivial
+    obtain ⟨s, hs, rfl⟩ := List.mem_map.1 hsp
+    exact Source.spec_ok hl st lm s (hok s hs)
   have hlen : (sliceOf c U st lm).length < fuel := Nat.lt_of_le_of_lt (List.length_filter_le _ _) hfuel
-  have := stack_refines_cursor hl specs hok (sliceOf c U st lm) hU'
+  have := stack_refines_cursor hl specs hok' (sliceOf c U st lm) hU'
     (fun e he => hk e (List.mem_filter.1 he).1) seq fuel hlen cs
   rw [hfresh] at this
   rw [this, sliceOf_probe hl U start limit hk hq, visible_slice hl]
@@ -250,6 +287,100 @@ def exSpecs : List NodeSpec :=
 example : DBIter.run (MergedIter.ops (Node.ops bytewise) bytewise) bytewise
       (DBIter.new (MergedIter.new (exSpecs.map (·.fresh))) 7 10) exCalls
     = Cursor.run (visible bytewise exEs 7) (geUser bytewise) .soi exCalls := by decide
+
+/-- the layout of `exSpecs` as sources before range restriction -/
+def exSrcs : List Source :=
+  [.arr [⟨mkIKey [1] 9 1, [19]⟩, ⟨mkIKey [2] 8 0, []⟩, ⟨mkIKey [4] 7 1, [47]⟩],
+   .arr [⟨mkIKey [1] 5 0, []⟩, ⟨mkIKey [4] 6 0, []⟩],
+   .level exLevel]
+
+example : DBIter.run (MergedIter.ops (Node.ops bytewise) bytewise) bytewise
+      (DBIter.new (MergedIter.new (exSrcs.map
+        (·.node bytewise ((some [2, 0]).map (probe · Gen.keyMaxSeq)) ((some [5]).map (probe · Gen.keyMaxSeq))))) 7 10)
+      [.first, .prev, .next, .next, .next, .prev, .seek [1], .seek [5], .last]
+    = [some ([3], [34]), none, some ([3], [34]), some ([4], [47]), none, some ([4], [47]), some ([3], [34]), none,
+       some ([4], [47])] := by decide
+
+/-! ## f. the tie to the LSM model (C01): the iterator presents the view that `Get` reads -/
+
+/-- **The DB iterator presents the view.**  For the sources `dbGet` searches (aux memdb and tables of a
+transaction, write buffer, frozen buffer, a version with `Version.wfB` — `C01.SourcesOK`), when no internal
+key occurs twice: the iterator `DB.newIterator` builds (merged raw iterator over `dbSources`, every child
+restricted to the range, `DBIter` on top) is, for every call sequence, the cursor over THE strictly sorted
+list `V` of pairs `(k, v)` with `view c (all entries) k seq = some v` and `Start ≤ k < Limit` — equivalently
+of the pairs for which `Get(k)` at `seq` returns `v` (`C01.lookup_refines_view`). -/
+theorem db_iterator_presents_view {c : UCmp} (hl : LawfulUCmp c) (auxm : Option (List Entry)) (aux : Level)
+    (mem : List Entry) (frozen : Option (List Entry)) (v : Version)
+    (h : C01.SourcesOK c auxm aux mem frozen v)
+    (hd : (dbEntries auxm aux mem frozen v).Pairwise (fun a b => a.key ≠ b.key))
+    (hq : ∀ e ∈ dbEntries auxm aux mem frozen v, e.seq ≤ Gen.keyMaxSeq)
+    (seq : Nat) (start limit : Option Bytes) :
+    ∃ V : List (Bytes × Bytes),
+      V.Pairwise (fun a b => c.cmp a.1 b.1 = .lt) ∧
+      (∀ k val, (k, val) ∈ V ↔
+        view c (dbEntries auxm aux mem frozen v) k seq = some val ∧ inRange c start limit k = true) ∧
+      (∀ k val, (k, val) ∈ V ↔
+        (dbGet c auxm aux mem frozen v k seq).toOption = some val ∧ inRange c start limit k = true) ∧
+      ∀ fuel, (dbEntries auxm aux mem frozen v).length < fuel → ∀ cs : List (Call Bytes),
+        DBIter.run (MergedIter.ops (Node.ops c) c) c
+          (DBIter.new (MergedIter.new ((dbSources auxm aux mem frozen v).map
+            (·.node c (start.map (probe · Gen.keyMaxSeq)) (limit.map (probe · Gen.keyMaxSeq))))) seq fuel) cs
+          = Cursor.run V (geUser c) .soi cs := by
+  let srcs := dbSources auxm aux mem frozen v
+  let all := srcs.flatMap (·.list)
+  let U := sortedUnion c all
+  have hok : ∀ s ∈ srcs, s.OK c :=
+    dbSources_ok hl auxm aux mem frozen v ((sortedB_iff hl _).1 h.auxm_sorted) ((sortedB_iff hl _).1 h.mem_sorted)
+      ((sortedB_iff hl _).1 h.frozen_sorted) h.aux_wf h.wf
+  have hperm := dbSources_perm auxm aux mem frozen v
+  have hd' : all.Pairwise (fun a b => a.key ≠ b.key) :=
+    (List.Perm.pairwise_iff (fun {a b} (h : a.key ≠ b.key) => h.symm) hperm).2 hd
+  have hU : MergeOK c (srcs.map (·.list)) U := mergeOK_sortedUnion hl srcs hok hd'
+  have hUperm : U.Perm (dbEntries auxm aux mem frozen v) := by
+    have := foldl_insert_perm (c := c) all []
+    rw [List.append_nil] at this
+    exact this.trans hperm
+  have hmemU : ∀ e, e ∈ U ↔ e ∈ dbEntries auxm aux mem frozen v := fun e => hUperm.mem_iff
+  have hkinds : ∀ e ∈ dbEntries auxm aux mem frozen v, e.kind ≤ Gen.keyTypeVal := by
+    intro e he
+    simp only [dbEntries, List.mem_append, Version.entries, Level.entries, List.mem_flatMap] at he
+    rcases he with he | he | he | ⟨t, ht, he⟩ | ⟨l, hlm, t, ht, he⟩
+    · exact h.auxm_kinds e he
+    · exact h.mem_kinds e he
+    · exact h.frozen_kinds e he
+    · exact Table.wf_kinds (h.aux_wf t ht) e he
+    · exact Table.wf_kinds (Version.wfB_tables h.wf l hlm t ht) e he
+  have hview : ∀ k, view c U k seq = view c (dbEntries auxm aux mem frozen v) k seq :=
+    fun k => view_congr hl (ESorted.uniqNum hl hU.sortedU) hmemU k seq
+  have hV1 : ∀ k val, (k, val) ∈ (visible c U seq).filter (fun p => inRange c start limit p.1) ↔
+      view c (dbEntries auxm aux mem frozen v) k seq = some val ∧ inRange c start limit k = true := by
+    intro k val
+    rw [List.mem_filter, visible_iff_view hl U hU.sortedU seq k val, hview]
+  refine ⟨(visible c U seq).filter (fun p => inRange c start limit p.1),
+    List.Pairwise.sublist List.filter_sublist (visible_sorted hl U hU.sortedU seq), hV1, ?_, ?_⟩
+  · intro k val
+    rw [hV1, C01.lookup_refines_view hl auxm aux mem frozen v h k seq]
+  · intro fuel hfuel cs
+    exact stack_range_refines_cursor hl srcs hok U hU (fun e he => hkinds e ((hmemU e).1 he))
+      (fun e he => hq e ((hmemU e).1 he)) seq start limit fuel (by rw [hUperm.length_eq]; exact hfuel) cs
+
+/-- the iterator stack `DB.newIterator` builds over C01's example state (write buffer, two overlapping level-0
+tables, one level-1 table) shows at sequence 9: `[1]` deleted, `[2]` ↦ b2, `[3]` ↦ c2 … -/
+example : DBIter.run (MergedIter.ops (Node.ops bytewise) bytewise) bytewise
+      (DBIter.new (MergedIter.new ((dbSources none [] C01.exMem none C01.exV).map (·.node bytewise none none))) 9 10)
+      [.first, .next, .next, .prev, .seek [1], .last]
+    = [some ([2], [0xb2]), some ([3], [0xc2]), none, some ([3], [0xc2]), some ([2], [0xb2]), some ([3], [0xc2])] := by
+  decide
+
+/-- … and at sequence 6, before the deletion of `[1]` and the newer versions: exactly what `Get` returns -/
+example : DBIter.run (MergedIter.ops (Node.ops bytewise) bytewise) bytewise
+      (DBIter.new (MergedIter.new ((dbSources none [] C01.exMem none C01.exV).map (·.node bytewise none none))) 6 10)
+      [.first, .next, .next, .next]
+    = [some ([1], [0xa1]), some ([2], [0xb2]), some ([3], [0xc1]), none]
+    ∧ (dbGet bytewise none [] C01.exMem none C01.exV [1] 6).toOption = some [0xa1] := by decide
+
+example := db_iterator_presents_view bytewise_lawful none [] C01.exMem none C01.exV C01.exSourcesOK
+  (by decide) (by decide) 9 none (some [3])
 
 /-- **each live pair exactly once, in strictly increasing order.**  `First` followed by `Next`s shows the
 visible pairs one after the other and then reports exhaustion; the list is strictly increasing. -/
@@ -321,7 +452,8 @@ def theorems : List String :=
   ["GoLevel.C02.dbiter_refines_cursor", "GoLevel.C02.visible_sorted", "GoLevel.C02.visible_iff_view",
    "GoLevel.C02.dbiter_range_refines_cursor", "GoLevel.C02.merged_refines_cursor",
    "GoLevel.C02.indexed_refines_cursor", "GoLevel.C02.stack_refines_cursor",
-   "GoLevel.C02.stack_range_refines_cursor", "GoLevel.C02.forward_walk_enumerates",
+   "GoLevel.C02.level_iter_is_range_filter", "GoLevel.C02.stack_range_refines_cursor",
+   "GoLevel.C02.db_iterator_presents_view", "GoLevel.C02.forward_walk_enumerates",
    "GoLevel.C02.backward_walk_enumerates", "GoLevel.C02.seek_lands_on_first_ge",
    "GoLevel.C02.only_live_pairs_surface", "GoLevel.C02.stack_only_live_pairs_surface",
    "GoLevel.C02.stack_forward_walk_enumerates"]
